@@ -33,6 +33,11 @@ def server_caps(rng):
     extra = ['urn:ietf:params:netconf:capability:candidate:1.0', 'urn:ietf:params:netconf:capability:notification:1.0',
              'http://example.com/yang?module=m&revision=2020-01-01', 'urn:ietf:params:netconf:capability:with-defaults:1.0?basic-mode=explicit']
     caps = caps + [c for c in extra if rng.random() < 0.4]
+    # legal URIs whose query part is not a tidy key=value list: a bare flag, a trailing / doubled '&', '=' inside a value, an empty query
+    odd = ['http://example.com/netconf/extensions/audit?strict', 'http://example.com/yang/a?module=a&', 'urn:example:cap:b?x=1&&y=2',
+           'http://example.com/yang/c?module=c&checksum=q83vEg==', 'urn:example:cap:d?', 'urn:example:cap:e?=v', 'urn:example:cap:f?k=v?w']
+    if rng.random() < 0.35:
+        caps = caps + [rng.choice(odd)]
     rng.shuffle(caps)
     if rng.random() < 0.1 and caps:
         caps.append(caps[0])
